@@ -53,9 +53,12 @@ class Driver(object):
         op = a['op']
         n = a['n']
         if op == 'open':
-            stmt = MODE_STMT[a['mode']] % (a['name'], n)
+            # the same file under different spellings: case, drive prefix, root and current-directory paths
+            spell = self.ctx.rng.choice(['%s', '%s', '%s', 'C:%s', '\\%s', 'C:\\%s', '.\\%s']) % (
+                a['name'] if self.ctx.rng.random() < 0.7 else a['name'].lower())
+            stmt = MODE_STMT[a['mode']] % (spell, n)
             if a.get('shared') and a['mode'] == 'R':
-                stmt = 'OPEN "%s" FOR RANDOM SHARED AS %d LEN=4' % (a['name'], n)
+                stmt = 'OPEN "%s" FOR RANDOM SHARED AS %d LEN=4' % (spell, n)
         elif op == 'close':
             stmt = 'CLOSE %d' % n
         elif op in ('lock', 'unlock'):
